@@ -30,15 +30,16 @@ theorem next_total (s : MeanAbsoluteDeviation F) (x : F) (h : WF s) :
        · constructor <;> (try simp only [Array.size_setIfInBounds]) <;> omega
        · rfl))
 
-theorem nextBar_eq (s : MeanAbsoluteDeviation F) (b : Bar F) : s.nextBar b = s.next b.close := by
-  unfold nextBar
-  try simp only [gen_helper]
-  cases h : s.next b.close <;> simp
-
 /-- `nextBar` never panics on a well-formed state, keeps it well-formed and keeps the period -/
 theorem nextBar_total (s : MeanAbsoluteDeviation F) (b : Bar F) (h : WF s) :
     ∃ r, s.nextBar b = some r ∧ WF r.1 ∧ r.1.period = s.period := by
-  rw [nextBar_eq]; exact next_total s _ h
+  unfold nextBar
+  try simp only [gen_helper]
+  simp only [Option.bind_eq_bind, Option.pure_def]
+  -- one `next` step on whichever scalar the bar path feeds to it (found by unification)
+  refine bind_total (next_total _ _ h) ?_
+  rintro ⟨s', o⟩ ⟨w, p⟩
+  exact ⟨_, rfl, w, p⟩
 
 /-- `reset` never panics on a well-formed state, yields a well-formed state with the same period
     (whatever values it writes) -/
